@@ -28,6 +28,7 @@ CHECKS = {
     "C16": "c16",
     "C17": "c17",
     "C19": "c19",
+    "C20": "c20",
 }
 
 
